@@ -13,7 +13,7 @@ type fpItem struct {
 	Term  Term
 }
 
-const fpElems = 6 // slice elements reported per slice
+const fpElems = 16 // slice elements reported per slice
 const fpDepth = 3
 
 // buildFootprint lists the scalars that describe the inputs of the function under verification in its
